@@ -984,6 +984,15 @@ def run_C07(rng, tier):
                 ulp = base / 2 ** 52 if base != F(3, 4) else F(1, 2 ** 53)
                 xs = [base + ulp * rng.below(6) for _ in range(16)]
                 fcases.append(Case.simple((v, n, E), xs, {"regime": "ulp-wide-window", "view": v, "model": False, "mode": "f64"}))
+    # "any dynamic range": ordinary positive values with one value 1e17 times larger entering and leaving the window; a view that keeps
+    # a running sum instead of recomputing absorbs the small values while the giant is inside and is left with garbage when it goes
+    for v in ("Cog", "Hln", "Cti", "Net", "Rsi", "MyRsi", "Entropy", "Min", "Max", "Drawdown", "Lrsi", "Tanh"):
+        for rep in range(2 * k):
+            n = rng.choice([3, 4, 7])
+            xs = [F(rng.below(90) + 10, 10) for _ in range(28)]
+            xs[6 + rng.below(8)] = F(10 ** 17) * rng.choice([1, 3])
+            d = (v, E) if v in ("Drawdown", "Tanh") else (v, n, E)
+            fcases.append(Case.simple(d, xs, {"regime": "giant-spike", "view": v, "model": False, "mode": "f64"}))
     run_impl(fcases, mode="f64")
     viols += O.c07(fcases, f64=True)
     return finish("C07", "C07", cases, viols, "every bounded view, N>=2, all regimes incl. constant stretches after volatile ones, spikes, monotone runs; exact-rational bound check at every step, and an f64 repeat with a tolerance of 4 ulps of the bound",
@@ -1132,6 +1141,17 @@ def run_C12(rng, tier):
         d = mk_view(rng, NEGATE[i % len(NEGATE)])
         xs = stream(d)
         pair("negate", d, xs, [-x for x in xs], None)
+    # extreme units and offsets: a tiny spread on a huge level (timestamps, prices with a large base) is where an absolute or a
+    # mean-relative threshold hidden in a guard shows; exact rationals, so the invariance itself is exact
+    for rep in range(k):
+        for name in AFFINE_INV:
+            a = rng.choice([F(1), F(1, 2 ** 20), F(10 ** 6), F(3)])
+            if name in ("Cti", "Vsct", "Eft"):
+                a = rng.choice([F(1), F(10 ** 6), F(3)])      # the surrogate square root / logarithm works on an absolute 2^-32 grid: no tiny units there
+            b = rng.choice([F(2 ** 31 + 1), F(10 ** 9), F(1, 2) - 10 ** 12, F(2 ** 40)])
+            d = mk_view(rng, name, n=(3 + rng.below(6) if name == "Cti" else None))
+            xs = stream(d)
+            pair("affine", d, xs, [a * x + b for x in xs], (a, b))
     for i in range(8 * k):
         d = mk_view(rng, "Rsi")
         xs = stream(d)
